@@ -110,6 +110,8 @@ impl RunOpts {
 
 #[derive(Clone, Debug, Default, Serialize, Deserialize)]
 pub struct CaseStats {
+    /// a short-lived reader accompanied every write transaction
+    pub reader_dance: bool,
     pub ops: u64,
     pub skipped_ops: u64,
     pub mut_commits: u64,
@@ -1734,6 +1736,18 @@ pub fn run_history_with(case: &HistoryCase, opts: &RunOpts, db: Option<DB>) -> O
     }
     let mut commit_models = Vec::new();
     let mut header_snaps = Vec::new();
+    let with_dance;
+    let opts = if case.dance > opts.reader_dance {
+        let mut o = opts.clone();
+        o.reader_dance = case.dance;
+        with_dance = o;
+        &with_dance
+    } else {
+        opts
+    };
+    if opts.reader_dance != 0 {
+        stats.reader_dance = true;
+    }
     let result = run_history_inner(case, opts, &mut stats, &mut model, &mut commit_models, &mut header_snaps, db);
     if !opts.keep_file {
         let _ = std::fs::remove_file(&opts.path);
